@@ -294,7 +294,7 @@ META = {
         ["liesel.goose.HMCKernel / NUTSKernel (_tune_slow), mm.tune_inv_mm_diag / tune_inv_mm_full, Engine (history hand-over), blackjax integrators"],
         ["independent-normal dict log-density"],
         [
-            "the reference is the float64 (co)variance (ddof=1) of the epoch's recorded positions of the kernel's own keys + 1e-3 on the diagonal, in jax.flatten_util.ravel_pytree order (sorted keys), compared with the kernel state stored after the first transition of the next epoch (rtol 2e-3)",
+            "the reference is the float64 (co)variance (ddof=1) of the epoch's recorded positions of the kernel's own keys + 1e-3 on the diagonal, in jax.flatten_util.ravel_pytree order (sorted keys), compared with the kernel state stored after the first transition of the next epoch (rtol 2e-3 plus the float32 cancellation error 1e-6 |m_i||m_j| of subtracting the mean)",
             "blackjax's integrator is trusted; only the alignment of the matrix with the flat coordinates is decided here",
         ],
         run_cap_s=600, shrink_tests=12, shrink_s=200,
